@@ -337,11 +337,14 @@ var hostileCTypes = []string{"application/json", "application/json; charset=utf-
 	"application/json\x00", " application/json", "application/jsonx", "application/vnd+.json"}
 
 type totalInput struct {
-	uri   string
-	meth  string
-	hdr   []drive.H
-	body  []byte
-	descr string
+	uri  string
+	meth string
+	hdr  []drive.H
+	body []byte
+	// mustFail names the class of an input the binder cannot possibly honour (struct destinations
+	// only): the binder has to report an error, a nil error with a zero / partial struct is a
+	// silent failure. Empty = nothing is demanded beyond "no panic".
+	mustFail string
 }
 
 func sanitizeLine(s string) string {
@@ -508,25 +511,25 @@ func sliceOfStructs() *typeSpec {
 }
 
 var totalCorpus = []totalCorpusCase{
-	{"query-negative-index", "query", sliceOfStructs, true, totalInput{uri: "/t?Zqbq.-1.Zqaq=x", meth: "GET"}},
-	{"query-negative-index-brackets", "query", sliceOfStructs, false, totalInput{uri: "/t?Zqbq[-1][Zqaq]=x", meth: "GET"}},
-	{"form-negative-index", "form", sliceOfStructs, false, totalInput{uri: "/t", meth: "POST", hdr: []drive.H{{K: "Content-Type", V: "application/x-www-form-urlencoded"}}, body: []byte("Zqbf.-1.Zqaf=x")}},
-	{"header-negative-index", "header", sliceOfStructs, true, totalInput{uri: "/t", meth: "GET", hdr: []drive.H{{K: "Zqbh.-1.Zqah", V: "x"}}}},
-	{"cookie-negative-index", "cookie", sliceOfStructs, true, totalInput{uri: "/t", meth: "GET", hdr: []drive.H{{K: "Cookie", V: "Zqbc.-1.Zqac=x"}}}},
+	{"query-negative-index", "query", sliceOfStructs, true, totalInput{uri: "/t?Zqbq.-1.Zqaq=x", meth: "GET", mustFail: "negative-slice-index"}},
+	{"query-negative-index-brackets", "query", sliceOfStructs, false, totalInput{uri: "/t?Zqbq[-1][Zqaq]=x", meth: "GET", mustFail: "negative-slice-index"}},
+	{"form-negative-index", "form", sliceOfStructs, false, totalInput{uri: "/t", meth: "POST", hdr: []drive.H{{K: "Content-Type", V: "application/x-www-form-urlencoded"}}, body: []byte("Zqbf.-1.Zqaf=x"), mustFail: "negative-slice-index"}},
+	{"header-negative-index", "header", sliceOfStructs, true, totalInput{uri: "/t", meth: "GET", hdr: []drive.H{{K: "Zqbh.-1.Zqah", V: "x"}}, mustFail: "negative-slice-index"}},
+	{"cookie-negative-index", "cookie", sliceOfStructs, true, totalInput{uri: "/t", meth: "GET", hdr: []drive.H{{K: "Cookie", V: "Zqbc.-1.Zqac=x"}}, mustFail: "negative-slice-index"}},
 	{"query-index-1000", "query", sliceOfStructs, false, totalInput{uri: "/t?Zqbq.1000.Zqaq=x", meth: "GET"}},
 	{"query-index-1001", "query", sliceOfStructs, false, totalInput{uri: "/t?Zqbq.1001.Zqaq=x", meth: "GET"}},
 	{"query-index-huge", "query", sliceOfStructs, false, totalInput{uri: "/t?Zqbq.99999999999999999999.Zqaq=x", meth: "GET"}},
 	{"query-unmatched-open", "query", flat(0), false, totalInput{uri: "/t?Zqaq[=1", meth: "GET"}},
 	{"query-unmatched-close", "query", flat(0), true, totalInput{uri: "/t?Zqaq]=1", meth: "GET"}},
 	{"query-deep-brackets", "query", flat(0), false, totalInput{uri: "/t?" + strings.Repeat("[", 2000) + "Zqaq" + strings.Repeat("]", 2000) + "=1", meth: "GET"}},
-	{"query-int-overflow", "query", flat(2), false, totalInput{uri: "/t?Zqaq=128", meth: "GET"}},
-	{"query-not-a-number", "query", flat(1), true, totalInput{uri: "/t?Zqaq=x", meth: "GET"}},
+	{"query-int-overflow", "query", flat(2), false, totalInput{uri: "/t?Zqaq=128", meth: "GET", mustFail: "integer-overflow"}},
+	{"query-not-a-number", "query", flat(1), true, totalInput{uri: "/t?Zqaq=x", meth: "GET", mustFail: "not-a-number"}},
 	{"query-slice-bad-element", "query", flat(int(nKinds) + 1), false, totalInput{uri: "/t?Zqaq=1&Zqaq=x", meth: "GET"}},
 	{"query-slice-bad-element-comma", "query", flat(int(nKinds) + 1), false, totalInput{uri: "/t?Zqaq=1,x", meth: "GET"}},
 	{"form-not-a-bool", "form", flat(int(kBool)), false, totalInput{uri: "/t", meth: "POST", hdr: []drive.H{{K: "Content-Type", V: "application/x-www-form-urlencoded"}}, body: []byte("Zqaf=maybe")}},
 	{"multipart-no-boundary", "multipart", flat(0), false, totalInput{uri: "/t", meth: "POST", hdr: []drive.H{{K: "Content-Type", V: "multipart/form-data"}}, body: []byte("--x\r\n\r\n")}},
-	{"header-not-a-number", "header", flat(1), true, totalInput{uri: "/t", meth: "GET", hdr: []drive.H{{K: "Zqah", V: "x"}}}},
-	{"cookie-not-a-number", "cookie", flat(1), true, totalInput{uri: "/t", meth: "GET", hdr: []drive.H{{K: "Cookie", V: "Zqac=x"}}}},
+	{"header-not-a-number", "header", flat(1), true, totalInput{uri: "/t", meth: "GET", hdr: []drive.H{{K: "Zqah", V: "x"}}, mustFail: "not-a-number"}},
+	{"cookie-not-a-number", "cookie", flat(1), true, totalInput{uri: "/t", meth: "GET", hdr: []drive.H{{K: "Cookie", V: "Zqac=x"}}, mustFail: "not-a-number"}},
 	{"json-truncated", "json", body(0), false, totalInput{uri: "/t", meth: "POST", hdr: []drive.H{{K: "Content-Type", V: "application/json"}}, body: []byte(`{"Zqaj":`)}},
 	{"json-deep", "json", body(0), false, totalInput{uri: "/t", meth: "POST", hdr: []drive.H{{K: "Content-Type", V: "application/json"}}, body: []byte(strings.Repeat("[", 100000))}},
 	{"xml-deep", "xml", body(0), false, totalInput{uri: "/t", meth: "POST", hdr: []drive.H{{K: "Content-Type", V: "application/xml"}}, body: []byte(strings.Repeat("<a>", 100000))}},
@@ -536,7 +539,7 @@ var totalCorpus = []totalCorpusCase{
 	{"body-empty-ctype", "body", body(0), false, totalInput{uri: "/t", meth: "POST", body: []byte(`{}`)}},
 	{"body-json-bad", "body", body(0), false, totalInput{uri: "/t", meth: "POST", hdr: []drive.H{{K: "Content-Type", V: "application/json; charset=utf-8"}}, body: []byte(`{`)}},
 	{"body-vendor-json-bad", "body", body(0), false, totalInput{uri: "/t", meth: "POST", hdr: []drive.H{{K: "Content-Type", V: "application/vnd.api+json"}}, body: []byte(`{`)}},
-	{"uri-not-a-number", "uri", flat(1), true, totalInput{uri: "/u/x", meth: "GET"}},
+	{"uri-not-a-number", "uri", flat(1), true, totalInput{uri: "/u/x", meth: "GET", mustFail: "not-a-number"}},
 }
 
 // totalRun executes one hostile input and applies the oracle.
@@ -599,6 +602,20 @@ func (en *engine) totalRun(c *ev.Case, op string, t *typeSpec, outKind int, auto
 	case perr != "":
 		e.Stat("total_unparsable_response", 1) // C07's business, not judged here
 		return
+	}
+	if !p.hasErr && in.mustFail != "" && outKind == outStruct {
+		descr["status"] = status
+		site := bop
+		switch bop {
+		case "query", "form", "header", "cookie", "uri":
+			site = "text-binders" // they share binder.parse / the schema decoder: one root cause, one signature
+		}
+		e.Violation(c, "totality|"+site+"|silent-success|"+in.mustFail,
+			"the binder returned nil for input it cannot bind ("+in.mustFail+"): failure must be reported as an error", descr)
+		return
+	}
+	if in.mustFail != "" {
+		e.Stat("mustfail_reported_error", 1)
 	}
 	if !p.hasErr {
 		e.Stat("total_accepted", 1)
